@@ -196,15 +196,21 @@ func (h264dp *h264Depacketizer) depacketizeFuA(packet *Packet) (err error) {
 	return
 }
 
+// unvalidated 已保存的参数集还未被验证过（尚未就绪，也没有从 sdp 的参数集解出过图像尺寸），
+// 此时用流内的参数集替换它们；已验证过的参数集不被流内（可能损坏的）参数集覆盖
+func (h264dp *h264Depacketizer) unvalidated() bool {
+	return !h264dp.metaReady && h264dp.meta.Width == 0
+}
+
 func (h264dp *h264Depacketizer) writeFrame(rtpTimestamp uint32, frame *codec.Frame) error {
 	nalType := frame.Payload[0] & 0x1f
 	switch nalType {
 	case h264.NalSps:
-		if len(h264dp.meta.Sps) == 0 || !h264dp.metaReady {
+		if len(h264dp.meta.Sps) == 0 || h264dp.unvalidated() {
 			h264dp.meta.Sps = frame.Payload
 		}
 	case h264.NalPps:
-		if len(h264dp.meta.Pps) == 0 || !h264dp.metaReady {
+		if len(h264dp.meta.Pps) == 0 || h264dp.unvalidated() {
 			h264dp.meta.Pps = frame.Payload
 		}
 	case h264.NalFillerData: // ?ignore...
